@@ -38,8 +38,9 @@ theorem union_of_keywords (env : Env) (impl : FmtImpl) (d : Draft) (fc : Option 
     (eval env impl (d.cfg fc) (fuel + 1) i (.obj kvs) none st).errs.map eraseSchema
       = kvs.flatMap fun kv =>
           (((eval env impl (d.cfg fc) (fuel + 1) i (alone (d.cfg fc) kvs kv.1) none st).errs.filter
-              (attributed kv.1)).map eraseSchema) := by
-  sorry
+              (attributed kv.1)).map eraseSchema) :=
+  union_step env impl (draft_kwFacts d fc) (fun i s hs => eval_stInd env impl d fc fuel i s hs)
+    i kvs (by simp only [Spec.WF, Bool.and_eq_true] at hwf; exact hwf.1) hnr st hdone
 
 /-- each keyword's contribution to the whole is its own run: the exhaustive errors of a schema
     object without `$ref` are the concatenation of the per-keyword runs, in keyword order (state
